@@ -238,11 +238,13 @@ func (s *Sorter) removeCols(row []string, removedCols map[int]struct{}) []string
 	return strs
 }
 
-func (s *Sorter) pkIndices() []uint32 {
+// pkIndices returns indices of the columns that identify a row of n columns:
+// the primary key, or every column when there is no primary key
+func (s *Sorter) pkIndices(n int) []uint32 {
 	if len(s.PK) > 0 {
 		return s.PK
 	}
-	sl := make([]uint32, len(s.Columns))
+	sl := make([]uint32, n)
 	for i := range sl {
 		sl[i] = uint32(i)
 	}
@@ -251,14 +253,12 @@ func (s *Sorter) pkIndices() []uint32 {
 
 func (s *Sorter) SortedBlocks(ctx context.Context, removedCols map[int]struct{}, errChan chan<- error) (blocks chan *Block) {
 	blocks = make(chan *Block, 10)
-	pkIndices := s.pkIndices()
 	go func() {
 		defer close(blocks)
 		blk := make([][]byte, 0, 255)
 		offset := 0
-		blkPK := make([]string, 0, len(pkIndices))
-		rowPK := make([]string, len(pkIndices))
-		prevRowPK := make([]string, len(pkIndices))
+		var pkIndices []uint32
+		var blkPK, rowPK, prevRowPK []string
 		dec := objects.NewStrListDecoder(true)
 		n := len(s.chunks)
 		chunkRows := make([]objects.StrList, n)
@@ -318,6 +318,12 @@ func (s *Sorter) SortedBlocks(ctx context.Context, removedCols map[int]struct{},
 			// append min row to block
 			minRow = r.RemoveFrom(minRow)
 			row := dec.Decode(minRow)
+			if pkIndices == nil {
+				pkIndices = s.pkIndices(len(row))
+				blkPK = make([]string, 0, len(pkIndices))
+				rowPK = make([]string, len(pkIndices))
+				prevRowPK = make([]string, len(pkIndices))
+			}
 			slice.CopyValuesFromIndices(row, rowPK, pkIndices)
 			pkOK := pkIsDifferent(rowPK, prevRowPK) || firstRow
 			firstRow = false
@@ -398,7 +404,6 @@ func pkIsDifferent(pk, prevPK []string) bool {
 
 func (s *Sorter) SortedRows(ctx context.Context, removedCols map[int]struct{}, errChan chan<- error) (rowsCh chan *Rows) {
 	rowsCh = make(chan *Rows, 10)
-	pkIndices := s.pkIndices()
 	go func() {
 		defer close(rowsCh)
 		rows := make([][]string, 0, 255)
@@ -409,8 +414,8 @@ func (s *Sorter) SortedRows(ctx context.Context, removedCols map[int]struct{}, e
 		dec := objects.NewStrListDecoder(false)
 		SortRows(s.current, s.PK)
 		chunkIdx := make([]int, n)
-		pk := make([]string, len(pkIndices))
-		prevPK := make([]string, len(pkIndices))
+		var pkIndices []uint32
+		var pk, prevPK []string
 		firstRow := true
 		for {
 			minInd := 0
@@ -463,6 +468,11 @@ func (s *Sorter) SortedRows(ctx context.Context, removedCols map[int]struct{}, e
 			}
 			if minRow == nil {
 				break
+			}
+			if pkIndices == nil {
+				pkIndices = s.pkIndices(len(minRow))
+				pk = make([]string, len(pkIndices))
+				prevPK = make([]string, len(pkIndices))
 			}
 			slice.CopyValuesFromIndices(minRow, pk, pkIndices)
 			pkOK := pkIsDifferent(pk, prevPK) || firstRow
